@@ -49,6 +49,7 @@ type vcFSModel struct {
 	order   []string
 	handles map[*os.File]*vcHandle
 	crcws   map[*rsum.CRC32Writer]*vcCRCW
+	crcrs   map[*rsum.CRC32Reader]*vcCRCR
 	encs    []*proto.SnapshotHeader
 }
 
@@ -64,7 +65,7 @@ var (
 )
 
 func vcNewFS(root string) *vcFSModel {
-	m := &vcFSModel{nodes: map[string]*vcNode{}, handles: map[*os.File]*vcHandle{}, crcws: map[*rsum.CRC32Writer]*vcCRCW{}}
+	m := &vcFSModel{nodes: map[string]*vcNode{}, handles: map[*os.File]*vcHandle{}, crcws: map[*rsum.CRC32Writer]*vcCRCW{}, crcrs: map[*rsum.CRC32Reader]*vcCRCR{}}
 	m.put(root, &vcNode{dir: true})
 	return m
 }
@@ -534,6 +535,91 @@ func vcDBFileSize(d *sql.SwappableDB) (int64, error) {
 	}
 	return int64(len(n.data)), nil
 }
+
+// (*db.SwappableDB).Swap: the database of the environment is replaced by the database file at
+// path (closed, files removed, path renamed into place, reopened with an empty WAL).
+func vcDBSwap(d *sql.SwappableDB, path string, fkConstraints, walEnabled bool) error {
+	if !vcIsValidSQLiteFile(path) {
+		return errors.New("invalid SQLite data")
+	}
+	e := vcEnvCur
+	n := vcFS.nodes[path]
+	if len(n.data) != len(vcDBMagic)+4 {
+		return vcErrBadData
+	}
+	t := n.data[len(vcDBMagic):]
+	vcOsRemove(e.dbPath)
+	vcOsRemove(e.walPath)
+	if err := vcOsRename(path, e.dbPath); err != nil {
+		return err
+	}
+	e.mainSt = vcState{lin: int(t[0]), p: [2]int{int(t[2]), int(t[3])}}
+	e.lin = e.mainSt.lin
+	e.walHas = [2]bool{}
+	e.mt++
+	vcFS.nodes[e.dbPath].mtime = e.mt
+	e.syncWALFile()
+	return nil
+}
+
+// store.createTemp: a new scratch file in dir.
+func vcCreateTemp(dir, pattern string) (*os.File, error) {
+	vcEnvCur.ntemps++
+	name := strings.Replace(pattern, "*", "t"+string(rune('a'+vcEnvCur.ntemps%26)), 1)
+	return vcOsCreate(filepath.Join(dir, name))
+}
+
+// db.ReplayWAL: the WAL tokens are folded into the database token in the given order and removed.
+func vcReplayWAL(path string, wals []string, deleteMode bool) error {
+	n, ok := vcFS.nodes[path]
+	if !ok || !vcIsValidSQLiteFile(path) || len(n.data) != len(vcDBMagic)+4 {
+		return errors.New("verif: invalid database file " + path)
+	}
+	if _, ok := vcFS.nodes[path+"-wal"]; ok {
+		return errors.New("verif: WAL already exists")
+	}
+	d := append([]byte(nil), n.data...)
+	t := d[len(vcDBMagic):]
+	for _, wp := range wals {
+		wn, ok := vcFS.nodes[wp]
+		if filepath.Dir(wp) != filepath.Dir(path) || !ok || !vcIsValidSQLiteWALFile(wp) || len(wn.data) != len(vcWALMagic)+6 {
+			return errors.New("verif: invalid WAL file " + wp)
+		}
+		w := wn.data[len(vcWALMagic):]
+		for i := 0; i < 2; i++ {
+			if w[2+2*i] == 1 {
+				t[2+i] = w[3+2*i]
+			}
+		}
+		t[1] = w[1]
+		vcFS.del(wp)
+	}
+	n.data = d
+	return nil
+}
+
+// rsum.CRC32Reader: bytes come from the underlying reader, the sum is the checksum of what was read.
+type vcCRCR struct {
+	r    io.Reader
+	seen []byte
+}
+
+func vcNewCRC32Reader(r io.Reader) *rsum.CRC32Reader {
+	c := new(rsum.CRC32Reader)
+	vcFS.crcrs[c] = &vcCRCR{r: r}
+	return c
+}
+
+func vcCRC32ReaderRead(c *rsum.CRC32Reader, p []byte) (int, error) {
+	st := vcFS.crcrs[c]
+	n, err := st.r.Read(p)
+	if n > 0 {
+		st.seen = append(st.seen, p[:n]...)
+	}
+	return n, err
+}
+
+func vcCRC32ReaderSum(c *rsum.CRC32Reader) uint32 { return vcCRCOf(vcFS.crcrs[c].seen) }
 
 // (*Store).createSnapshotFingerprint: the clean-snapshot marker (its content and the fast restart
 // it enables are outside C04): writes the marker file, fails when its directory does not exist.
